@@ -47,6 +47,26 @@ func VerifRecorder(write func(line []byte)) func(ev string, args ...interface{})
 			rd, _ = args[1].(text.Reader)
 		case "Open", "Continue", "ParaContinue", "Close", "Discard", "EndOfInput":
 			rd, _ = args[0].(text.Reader)
+		case "InlineTry":
+			// the inline phase works on block readers; attribute the event to the call in
+			// progress when there is exactly one
+			if len(calls) != 1 || args[2] == nil {
+				return
+			}
+			if n, ok := args[2].(ast.Node); !ok || n == nil {
+				return
+			}
+			block, _ := args[0].(text.BlockReader)
+			if block == nil {
+				return
+			}
+			l, p := block.Position()
+			saved, _ := args[4].(text.Segment)
+			adv := l > args[3].(int) || (l == args[3].(int) && (p.Start > saved.Start || (p.Start == saved.Start && p.Padding < saved.Padding)))
+			for _, c := range calls {
+				write([]byte(fmt.Sprintf(`{"t":%d,"ev":"InlineTry","same":%v}`, c.t, adv)))
+			}
+			return
 		default:
 			return
 		}
